@@ -87,6 +87,14 @@ Definition lres_rel (d root : value) (g : outcome (value * result (lens value) R
   | _, _ => False
   end.
 
+(* closing a recursive call of a walk: by the induction hypothesis as it stands, or after normalising the two counters *)
+Ltac close_lres IH H3 :=
+  first [ apply IH; exact H3
+        | match goal with
+          | |- lres_rel _ _ (?g ?fuel ?self ?ptr ?root ?o1 ?p1 ?l) (?m ?fuel' ?ptr' ?v ?o2 ?p2 ?rp) =>
+              replace o1 with o2 by lia; replace p1 with p2 by lia; apply IH; exact H3
+          end ].
+
 Ltac mut_head ptr :=
   rewrite gen_split_front_eq;
   destruct (split_front ptr) as [[tok rem]|]; cbn [option_map];
@@ -99,7 +107,7 @@ Ltac mut_obj IH d rpath lv tok m Hat :=
   destruct (obj_lookup (decoded tok) m) as [ch|] eqn:Hl;
   [ let l' := fresh "l'" in let H1 := fresh "H1" in let H2 := fresh "H2" in let H3 := fresh "H3" in
     destruct (lens_at_key d (rev rpath) lv m (decoded tok) ch Hat eq_refl Hl) as (l' & H1 & H2 & H3);
-    rewrite H1; rewrite <- H2; apply IH; exact H3
+    rewrite H1; rewrite <- H2; close_lres IH H3
   | rewrite lens_get_mut_none by exact Hl; cbn [lres_rel model_rerr]; split; reflexivity ].
 
 Ltac mut_child IH d rpath lv l idx Hat :=
@@ -107,7 +115,7 @@ Ltac mut_child IH d rpath lv l idx Hat :=
   destruct (nth_error l (N.to_nat idx)) as [ch|] eqn:Hn;
   [ let l' := fresh "l'" in let H1 := fresh "H1" in let H2 := fresh "H2" in let H3 := fresh "H3" in
     destruct (lens_at_idx d (rev rpath) lv l idx ch Hat eq_refl Hn) as (l' & H1 & H2 & H3);
-    rewrite H1; rewrite <- H2; apply IH; exact H3
+    rewrite H1; rewrite <- H2; close_lres IH H3
   | rewrite lens_index_none by exact Hn; exact I ].
 
 Lemma gen_json_resolve_mut_lens_loop_ok d self root : forall fuel ptr lv off pos rpath,
@@ -267,6 +275,11 @@ Qed.
 
 Ltac arel_rec IH fuel rem child put' value root off pos Hs :=
   let H := fresh "H" in
+  match goal with
+  | |- arel _ _ _ (?g ?fuel' ?rem' ?dest ?value' ?root' ?o1 ?p1) _ =>
+      first [ constr_eq o1 off | replace o1 with off by lia ]; first [ constr_eq p1 pos | replace p1 with pos by lia ]
+  | _ => idtac
+  end;
   pose proof (IH rem child put' value root off pos Hs) as H;
   match type of H with
   | arel _ _ _ ?g ?m =>
@@ -292,7 +305,7 @@ Proof.
     2: { cbn [arel fst snd model_aerr]. rewrite model_gen_pie. repeat split. }
     rewrite gen_for_len_incl_eq. destruct (for_len_incl i (len l)) as [idx|[l' ix]] eqn:Hfl; cbn [gen_oob].
     2: { cbn [arel fst snd model_aerr]. repeat split. }
-    rewrite (for_len_incl_le _ _ _ Hfl).
+    try rewrite (for_len_incl_le _ _ _ Hfl).   (* the debug_assert!, when the source has it *)
     destruct (idx <? len l).
     + rewrite gen_is_root_eq. unfold lens_index. cbn [fst snd]. rewrite nth_N_nth_error.
       destruct (nth_error l (N.to_nat idx)) as [child|] eqn:Hn.
@@ -365,7 +378,7 @@ Proof.
     2: { cbn [arel fst snd model_aerr]. rewrite model_gen_pie. repeat split. }
     rewrite gen_for_len_incl_eq. destruct (for_len_incl i (len l)) as [idx|[l' ix]] eqn:Hfl; cbn [gen_oob].
     2: { cbn [arel fst snd model_aerr]. repeat split. }
-    rewrite (for_len_incl_le _ _ _ Hfl).
+    try rewrite (for_len_incl_le _ _ _ Hfl).   (* the debug_assert!, when the source has it *)
     destruct (idx <? len l).
     + rewrite gen_is_root_eq. unfold lens_index. cbn [fst snd]. rewrite nth_N_nth_error.
       destruct (nth_error l (N.to_nat idx)) as [child|] eqn:Hn.
